@@ -182,6 +182,25 @@ func GenerateAfterPartialCommit() {
 	checkConsistent(ctx, c, ids, 2, pub, len(parts))
 }
 
+// tamperedCommitReply: the commit reply of ONE participant (every position, the initiator's own included)
+// reaches the initiator with a confirmation signature that is not that participant's, or with another
+// composite public key. The generation must not be reported as successful.
+func tamperedCommitReply(ids []uint64, t uint32, initiator int) {
+	vsym.ForbidCrash()
+	ctx := context.Background()
+	c := newCluster(ctx, ids, 70*time.Second)
+	c.commitReplyKind = vsym.Choose("commit-reply-tamper-kind", 2)
+	c.tamperCommitReply = map[uint64]bool{ids[vsym.Choose("commit-reply-tampered-from", len(ids))]: true}
+	_, _, err := c.nodes[ids[initiator]].proc.OnGenerate(ctx, hc.Creds(), walletName+"/acc", passphrase, t, uint32(len(ids)))
+	vsym.Out("err", err != nil)
+	vsym.Assert("T0-tampered-commit-reply-fails-the-generation", err != nil)
+}
+
+func Generate2of3TamperedCommitReply()         { tamperedCommitReply(idsSmall[:3], 2, 0) }
+func Generate3of4TamperedCommitReply()         { tamperedCommitReply(idsSmall[:4], 3, 2) }
+func Generate2of3LargeIDsTamperedCommitReply() { tamperedCommitReply(idsLarge[:3], 2, 1) }
+func Generate3of3TamperedCommitReply()         { tamperedCommitReply(idsSmall[:3], 3, 1) }
+
 var (
 	idsSmall = []uint64{1, 2, 3, 4, 5}
 	idsLarge = []uint64{1 << 40, 1<<40 + 7, 3, 1<<63 + 11, 1<<64 - 2}
